@@ -131,10 +131,10 @@ func v25check(gen func(tag string, like *v25val) v25val, nums bool) {
 		f = gen("f", nil)
 	}
 	if lists {
-		if rt.Thorough() {
+		if rt.Thorough() && !nums {
 			d = gen("d", nil)
 		} else {
-			d = gen("d", &c) // quick: the second literal is of the kind (numbers: sign and digit count) of the first
+			d = gen("d", &c) // quick, numbers: the second literal is of the kind (numbers: sign and digit count) of the first
 		}
 	}
 	g, e := f, c // the second comparison / the branches of ?: use f and c again
